@@ -81,17 +81,18 @@ let verdict_e n nodes per lo hi planned sa pl pre busy rq st =
         | None ->
           (* how many shard-aware connections the model opens per shard.  Runs of the loop = pool slots the
              refiller fills through the shard-aware port in its first round: per_shard on every node, minus
-             the node's first pool connection (plain port) on the shard it landed on.  All nodes draw from the
+             the node's first pool connection (plain port) on the shard it landed on (extracted runs_for_shard).  All nodes draw from the
              same local ports.  busy= ports are unavailable for an unknown part of the scenario: interval. *)
           let first nd = match List.find_opt (fun (nd', _) -> nd' = nd) pl with Some (_, s) -> Some s | None -> None in
           if List.exists (fun nd -> first nd = None) node_ids then "diff node-without-plain-pool-connection"
           else begin
+            let firsts = List.map (fun nd -> match first nd with Some s -> s | None -> assert false) node_ids in
             let off = ref [] and pred = ref 0 and skp = ref 0 and pwr = ref 0 in
             List.iter (fun s ->
-                let runs = List.fold_left (fun a nd -> a + per - (if first nd = Some s then 1 else 0)) 0 node_ids in
-                let pivots = List.init runs (fun i -> nat_of_int i) in
-                let hi_cnt = List.length (open_many n s lo hi pivots pre) in
-                let lo_cnt = List.length (open_many n s lo hi pivots (pre @ busy)) in
+                (* extracted: runs_for_shard (C11_connect_runs), shard_count_bounds (C11_connect_count_bounds) *)
+                let runs = int_of_nat (runs_for_shard (nat_of_int per) firsts s) in
+                let (lo_n, hi_n) = shard_count_bounds n lo hi (nat_of_int per) firsts pre busy s in
+                let lo_cnt = int_of_nat lo_n and hi_cnt = int_of_nat hi_n in
                 let got = List.length (List.filter (fun (_, _, s') -> s' = s) sa) in
                 pred := !pred + hi_cnt;
                 if List.exists (fun p -> List.mem p pre || List.mem p busy) (spec_ports n s lo hi) then skp := !skp + got;
